@@ -2,6 +2,7 @@ SPECIFICATION Spec
 CONSTANTS
   MaxLayout = 3
   MaxFailures = 2
-INVARIANTS BoundedRounds
+  DrainOnSuccess = FALSE
+INVARIANTS BoundedRounds TriggerKept
 PROPERTIES Converges NoLostTrigger QuitEnds
 CHECK_DEADLOCK FALSE
